@@ -308,6 +308,103 @@ func (in *inst) opIngestBlocks(v string) (bool, error) {
 	return true, nil
 }
 
+// opIngestOffline is the documented bulk-load path: POST blocks?noindexing=true with new supervoxels, then the
+// matching label indices through POST indices and, for supervoxels that join an existing body, POST mappings.
+func (in *inst) opIngestOffline(v string) (bool, error) {
+	st := in.states[v]
+	u := in.unwritten(st)
+	if len(u) == 0 {
+		return false, nil
+	}
+	in.r.Shuffle(len(u), func(i, j int) { u[i], u[j] = u[j], u[i] })
+	n := 1 + in.r.Intn(len(u))
+	if n > 3 {
+		n = 3
+	}
+	u = u[:n]
+	bs := in.g.BS
+	before := st.Clone()
+	var pbs []lmwire.PosBlock
+	newSV := map[uint64]bool{}
+	for _, b := range u {
+		data := in.genBox(st, [3]int{bs, bs, bs}, in.style(), 0) // fresh supervoxels only
+		pbs = append(pbs, lmwire.PosBlock{X: int32(b[0]), Y: int32(b[1]), Z: int32(b[2]), Vox: data})
+		if err := st.WriteBox([3]int{b[0] * bs, b[1] * bs, b[2] * bs}, [3]int{bs, bs, bs}, data); err != nil {
+			return false, err
+		}
+		for l := range distinct(data) {
+			newSV[l] = true
+		}
+	}
+	if len(newSV) == 0 {
+		in.states[v] = before
+		return false, nil
+	}
+	body, err := lmwire.EncodeBlockStream(pbs, in.bs)
+	if err != nil {
+		return false, err
+	}
+	// some of the new supervoxels join an existing body
+	svs := sortedU64(newSV)
+	var target uint64
+	var joined []uint64
+	if bodies := before.Scan().Bodies(); len(bodies) > 0 && len(svs) >= 2 && in.r.Intn(2) == 0 {
+		target = bodies[in.r.Intn(len(bodies))]
+		joined = svs[:1+in.r.Intn(len(svs)-1)]
+		st.Assign(joined, target)
+	}
+	in.log("ingest-offline@%s blocks=%v (noindexing) new supervoxels=%d, %v mapped to body %d", in.short(v), u, len(svs), joined, target)
+	r, err := in.w.Post(in.url(v, "blocks?noindexing=true"), body)
+	if err != nil {
+		return false, err
+	}
+	if !r.OK() {
+		in.states[v] = before
+		in.viol("op-refused:ingest-offline-blocks", fmt.Sprintf("legal POST blocks?noindexing=true refused: %s", r), nil)
+		return false, nil
+	}
+	if len(joined) > 0 {
+		r, err = in.w.Post(in.url(v, "mappings"), lmwire.EncodeMappingOps([]lmwire.MappingOp{{MutID: 1, Mapped: target, Original: joined}}))
+		if err != nil {
+			return false, err
+		}
+		if !r.OK() {
+			in.viol("op-refused:post-mappings", fmt.Sprintf("legal POST mappings refused: %s", r), nil)
+			return false, fmt.Errorf("cannot continue after refused POST mappings")
+		}
+		in.entry(v, joined...)
+	}
+	// indices of every body that gained voxels, computed from the voxels
+	sc := st.Scan()
+	affected := map[uint64]bool{}
+	for _, sv := range svs {
+		affected[sc.SVBody[sv]] = true
+	}
+	var lis []*lmwire.LabelIndex
+	for _, b := range sortedU64(affected) {
+		li := &lmwire.LabelIndex{Label: b, Blocks: map[[3]int32]map[uint64]uint32{}}
+		for bc, m := range sc.Index[b] {
+			mm := map[uint64]uint32{}
+			for sv, c := range m {
+				mm[sv] = uint32(c)
+			}
+			li.Blocks[[3]int32{int32(bc[0]), int32(bc[1]), int32(bc[2])}] = mm
+		}
+		lis = append(lis, li)
+	}
+	r, err = in.w.Post(in.url(v, "indices"), lmwire.EncodeLabelIndices(lis))
+	if err != nil {
+		return false, err
+	}
+	if !r.OK() {
+		in.viol("op-refused:post-indices", fmt.Sprintf("legal POST indices refused: %s", r), nil)
+		return false, fmt.Errorf("cannot continue after refused POST indices")
+	}
+	in.bump(v, svs...)
+	in.after(v, "ingest-offline", before)
+	return true, nil
+}
+
 func (in *inst) pickBodies(sc *labelmodel.Scan, n int) []uint64 {
 	bs := sc.Bodies()
 	in.r.Shuffle(len(bs), func(i, j int) { bs[i], bs[j] = bs[j], bs[i] })
